@@ -19,7 +19,7 @@ RULE = ('cases are seeded load/unload/select histories (5-40 steps) over a per-r
         'unload, a still-loaded key shared an alias with an unloaded or re-loaded one and the full invariant sweep ran; '
         'distinct = distinct step-kind sequences among non-trivial runs')
 TIERS = {'quick': {'runs': 6000, 'budget_s': 50}, 'thorough': {'runs': 400000, 'budget_s': 1500}}
-PROBES = ('subkey_unloaded_on_its_own', 'alias_shared_by_3', 'pub_and_priv_both_loaded', 'batch_failed_at_k>0', 'reload_after_unload',
+PROBES = ('load_both_halves_in_one_blob', 'subkey_unloaded_on_its_own', 'alias_shared_by_3', 'pub_and_priv_both_loaded', 'batch_failed_at_k>0', 'reload_after_unload',
           'same_key_loaded_twice', 'unload_with_shared_alias', 'select_by_signature', 'select_by_message',
           'load_from_path', 'load_concat_blob')
 
@@ -71,6 +71,9 @@ def generate(rng, tier):
             if rng.random() < 0.08 and nitems >= 2:
                 # one blob holding several transferable keys
                 st['concat'] = True
+            if nitems == 1 and rng.random() < 0.1:
+                # one blob (a keyring file) holding the public and the private half of the same key
+                st['both_halves'] = rng.choice(['pub_first', 'priv_first'])
             if rng.random() < 0.12:
                 st['fault'] = {'kind': 'X2', 'at': rng.randrange(nitems + 1),
                                'how': rng.choice(['truncated', 'wrong_kind', 'missing_path', 'garbage'])}
@@ -97,6 +100,8 @@ def simplify(case):
                 yield c
             if s.get('concat'):
                 yield _with(case, i, {k: v for k, v in s.items() if k != 'concat'})
+            if s.get('both_halves'):
+                yield _with(case, i, {k: v for k, v in s.items() if k != 'both_halves'})
             if len(s['items']) > 1:
                 for j in range(len(s['items'])):
                     ns = dict(s)
@@ -299,6 +304,11 @@ def _do_load(w, step, ctx):
                 if (it['form'] == 'obj') != (e.obj is src):
                     return True
         return False
+    both = step.get('both_halves') if len(items) == 1 and items[0]['form'] in ('bin', 'bytearray', 'path') else None
+    if both:
+        items = [dict(items[0], half=h) for h in (('pub', 'priv') if both == 'pub_first' else ('priv', 'pub'))]
+        if any(clash(it) for it in items):
+            return
     items = [it for it in items if not clash(it)]
     seen_forms = {}
     keep = []
@@ -313,7 +323,18 @@ def _do_load(w, step, ctx):
     args = []
     expect = []     # per arg: list of Entry factories (key name, half) or None for a corrupt item
     fault = step.get('fault')
-    if step.get('concat') and all(it['half'] == items[0]['half'] for it in items) \
+    if both:
+        blob = b''.join(bytes(w.keys[it['key']][it['half']]) for it in items)
+        if items[0]['form'] == 'path':
+            p = seams.SimFS.ROOT + '%s.both.gpg' % items[0]['key']
+            seams.fs().write(p, blob)
+            blob = p
+        elif items[0]['form'] == 'bytearray':
+            blob = bytearray(blob)
+        args.append(blob)
+        expect.append([(it['key'], it['half']) for it in items])
+        ctx.probe('load_both_halves_in_one_blob')
+    elif step.get('concat') and all(it['half'] == items[0]['half'] for it in items) \
             and len(set(it['key'] for it in items)) == len(items):
         # one blob holding several *different* transferable keys
         blob = b''.join(bytes(w.keys[it['key']][it['half']]) for it in items)
